@@ -262,13 +262,15 @@ func c15Build(r *rand.Rand, t reflect.Type, fieldIdx int, tmpl bool) (pipeline.A
 	return n.Interface().(pipeline.Action), desc
 }
 
+var c15AddrRe = regexp.MustCompile(`0x[0-9a-f]{6,}`)
+
 func c15Clone(r *rand.Rand, t reflect.Type, fieldIdx int, tmpl bool) Case {
 	act, fdesc := c15Build(r, t, fieldIdx, tmpl)
 	if act == nil {
 		return Case{Kind: "skipped"}
 	}
 	before := gValue(reflect.ValueOf(act))
-	var after, origAfter string
+	var after, origAfter, descFail string
 	var fail []string
 	pn := ""
 	withCtx(func(ctx pipeline.ActionContext) {
@@ -276,6 +278,14 @@ func c15Clone(r *rand.Rand, t reflect.Type, fieldIdx int, tmpl bool) Case {
 			cl := act.CloneWith(ctx)
 			after = gValue(reflect.ValueOf(cl))
 			origAfter = gValue(reflect.ValueOf(act))
+			// what a listener prints of an action is its String(): a structurally equal clone describes itself in the same
+			// words (addresses of pointers, if any are printed, are masked)
+			if !tmpl && after == before {
+				mask := func(s string) string { return c15AddrRe.ReplaceAllString(s, "0xADDR") }
+				if so, sc := mask(act.String()), mask(cl.String()); so != sc {
+					descFail = fmt.Sprintf("the clone describes itself as %q, the original as %q", sc, so)
+				}
+			}
 		})
 	})
 	if pn != "" {
@@ -283,6 +293,9 @@ func c15Clone(r *rand.Rand, t reflect.Type, fieldIdx int, tmpl bool) Case {
 	}
 	if origAfter != before {
 		fail = append(fail, "CloneWith changed the original")
+	}
+	if descFail != "" {
+		fail = append(fail, descFail)
 	}
 	if !tmpl && after != before {
 		fail = append(fail, fmt.Sprintf("clone of %s with template-free field %s is not structurally equal to the original", t.Name(), fdesc))
